@@ -618,3 +618,120 @@ def twin_extract_methods(tree, relpath, every=3):
 TWINS2.append(("extract-method-on-every-third-run-of-simple-statements", twin_extract_methods))
 TWINS2.append(("extract-method-on-every-second-run-of-simple-statements", lambda tree, relpath: twin_extract_methods(tree, relpath, every=2)))
 TWINS2.append(("extract-method-on-every-run-of-simple-statements", lambda tree, relpath: twin_extract_methods(tree, relpath, every=1)))
+
+
+# ---------------------------------------------------------------------------------------------- message texts / modern spellings
+class _Messages(ast.NodeTransformer):
+    """the text of every log message and of every exception message built from a literal is reworded (prefixed), conversions kept"""
+
+    def visit_Call(self, node):
+        self.generic_visit(node)
+        is_log = isinstance(node.func, ast.Attribute) and isinstance(node.func.value, ast.Name) and node.func.value.id in ("log", "logger", "logging") and \
+            node.func.attr in ("debug", "info", "warning", "error", "exception", "critical")
+        if is_log and node.args and isinstance(node.args[0], ast.Constant) and isinstance(node.args[0].value, str):
+            node.args[0] = ast.copy_location(ast.Constant("pyro: " + node.args[0].value), node.args[0])
+        return node
+
+    def visit_Raise(self, node):
+        self.generic_visit(node)
+        c = node.exc
+        if isinstance(c, ast.Call) and c.args:
+            a = c.args[0]
+            if isinstance(a, ast.Constant) and isinstance(a.value, str):
+                c.args[0] = ast.copy_location(ast.Constant("Pyro: " + a.value), a)
+            elif isinstance(a, ast.BinOp) and isinstance(a.op, ast.Mod) and isinstance(a.left, ast.Constant) and isinstance(a.left.value, str):
+                a.left = ast.copy_location(ast.Constant("Pyro: " + a.left.value), a.left)
+        return node
+
+
+def twin_messages(tree, relpath):
+    return _Messages().visit(tree)
+
+
+class _Modernise(ast.NodeTransformer):
+    """pyupgrade-style: `super(C, self).m()` -> `super().m()` inside methods of C, `class C(object):` -> `class C:`, `set([a, b])` -> `{a, b}`"""
+
+    def __init__(self):
+        self.cls = []
+        self.fn = []
+
+    def visit_ClassDef(self, node):
+        node.bases = [b for b in node.bases if not (isinstance(b, ast.Name) and b.id == "object")] if len(node.bases) == 1 else node.bases
+        self.cls.append(node.name)
+        self.generic_visit(node)
+        self.cls.pop()
+        return node
+
+    def visit_FunctionDef(self, node):
+        self.fn.append(node)
+        self.generic_visit(node)
+        self.fn.pop()
+        return node
+
+    def visit_Call(self, node):
+        self.generic_visit(node)
+        if isinstance(node.func, ast.Name) and node.func.id == "super" and len(node.args) == 2 and self.cls and len(self.fn) == 1 and \
+                isinstance(node.args[0], ast.Name) and node.args[0].id == self.cls[-1] and isinstance(node.args[1], ast.Name) and \
+                self.fn[-1].args.args and node.args[1].id == self.fn[-1].args.args[0].arg:
+            node.args = []
+        if isinstance(node.func, ast.Name) and node.func.id == "set" and len(node.args) == 1 and isinstance(node.args[0], ast.List) and node.args[0].elts and not node.keywords:
+            return ast.copy_location(ast.Set(elts=node.args[0].elts), node)
+        return node
+
+
+def twin_modernise(tree, relpath):
+    return _Modernise().visit(tree)
+
+
+TWINS2.append(("log-and-exception-message-texts-reworded", twin_messages))
+TWINS2.append(("modern-spellings-super-without-arguments-no-object-base-set-displays", twin_modernise))
+
+
+class _PercentToFormat(ast.NodeTransformer):
+    """`"... %s ... %r ... %d" % (a, b, c)` (tuple display, plain conversions only) -> `"... {} ... {!r} ... {}".format(a, b, c)`; `"%s" % x` with a single conversion and an
+    operand that is a call-free, subscript/attribute/name expression which is not a tuple -> `"{}".format(x)`"""
+
+    def visit_BinOp(self, node):
+        self.generic_visit(node)
+        if isinstance(node.op, ast.Mod) and isinstance(node.left, ast.Constant) and isinstance(node.left.value, str):
+            import re
+            text = node.left.value
+            specs = re.findall(r"%(.)", text)
+            if not specs or any(c not in "srd%" for c in specs) or "{" in text or "}" in text:
+                return node
+            n = sum(1 for c in specs if c != "%")
+            if isinstance(node.right, ast.Tuple):
+                if len(node.right.elts) != n:
+                    return node
+                args = list(node.right.elts)
+            elif n == 1 and isinstance(node.right, (ast.Call,)) and isinstance(node.right.func, ast.Name) and node.right.func.id in ("len", "str", "repr", "type", "int"):
+                args = [node.right]
+            else:
+                return node
+            # %d of a non-int differs from {} - only convert %d when the operand is a len() call or an int constant
+            out, i = [], 0
+            k = 0
+            while i < len(text):
+                if text[i] == "%" and i + 1 < len(text):
+                    c = text[i + 1]
+                    if c == "%":
+                        out.append("%")
+                    else:
+                        a = args[k]
+                        if c == "d" and not ((isinstance(a, ast.Call) and isinstance(a.func, ast.Name) and a.func.id == "len") or (isinstance(a, ast.Constant) and type(a.value) is int)):
+                            return node
+                        out.append("{!r}" if c == "r" else "{}")
+                        k += 1
+                    i += 2
+                else:
+                    out.append(text[i])
+                    i += 1
+            return ast.copy_location(ast.Call(func=ast.Attribute(value=ast.Constant("".join(out)), attr="format", ctx=ast.Load()), args=args, keywords=[]), node)
+        return node
+
+
+def twin_percent_to_format(tree, relpath):
+    return _PercentToFormat().visit(tree)
+
+
+TWINS2.append(("percent-formatting-written-as-str.format", twin_percent_to_format))
